@@ -1,4 +1,4 @@
-package main
+package hlib
 
 import "runtime/debug"
 
